@@ -147,7 +147,10 @@ class XsdIdentity(XsdComponent):
     # XSD elements bound by selector (for speed-up and for lazy mode)
     elements: dict['XsdElement', list['FieldValueSelector']]
 
-    __slots__ = ('selector', 'fields', 'elements')
+    # Usages of xsi:type (element name and type) already processed for extending elements
+    xsi_usages: set[tuple[Optional[str], Any]]
+
+    __slots__ = ('selector', 'fields', 'elements', 'xsi_usages')
 
     def __init__(self, elem: ElementType, schema: SchemaType,
                  parent: Optional['XsdElement']) -> None:
@@ -174,6 +177,7 @@ class XsdIdentity(XsdComponent):
                 self.fields.append(XsdFieldSelector(child, self.schema, self))
 
         self.elements = {}
+        self.xsi_usages = set()
 
     def build(self) -> None:
         if self._built is not False:
@@ -187,6 +191,7 @@ class XsdIdentity(XsdComponent):
                 except KeyError:
                     self.fields = []
                     self.elements = {}
+                    self.xsi_usages = set()
                     msg = _("unknown identity constraint {!r}")
                     self.parse_error(msg.format(self.name))
                     self.ref = None
@@ -198,6 +203,7 @@ class XsdIdentity(XsdComponent):
                     self.selector = ref.selector
                     self.fields = ref.fields
                     self.elements = {}
+                    self.xsi_usages = set()
                     self.ref = ref
 
             try:
